@@ -74,6 +74,9 @@ def data_programs(rep, wd, rng, thorough):
                 out.append((["5 INPUT A,B$", "7 DIM C(9),C$(9)", "10 READ " + ",".join(tg), "20 DATA " + ",".join(DT_ITEMS[x] for x in s[:cut]),
                              "30 PRINT \"Z\":DATA " + ",".join(DT_ITEMS[x] for x in s[cut:])], "data-2-lines"))
     out.append((["5 INPUT A,B$", "10 DATA 5,K", "20 READ C(1),C$(2)"], "read-implicit-array"))
+    for a, b, c in ((",2", "3", "X,Y,Z"), ("1,,3", "4", "W,X,Y,Z"), ("1", ",2", "X,Y,Z"), (",", "5,6", "W,X,Y,Z"), ("1,2", "3", "X,Y,Z")):
+        out.append((["5 INPUT A,B$", "10 DATA " + a, "20 DATA " + b, "30 READ " + c], "data-empty-item-position"))
+        out.append((["5 INPUT A,B$", "10 READ " + c, "20 DATA " + a, "30 B=1:DATA " + b], "data-empty-item-position"))
     out.append((["5 INPUT A,B$", "10 DATA 1,2,3", "20 READ X,Y:RESTORE:READ Z,W"], "restore"))
     out.append((["5 INPUT A,B$", "10 DATA 4", "20 READ X:RESTORE", "30 READ Y:RESTORE:READ Z"], "restore"))
     out.append((["5 INPUT A,B$", "10 FOR I=1 TO 3:READ C(I):NEXT", "20 DATA 7,8,9", "30 Z=C(1)+C(3)"], "read-loop"))
@@ -120,7 +123,8 @@ INITIAL = [
     (["10 ON Q+1 GOTO 20", "20 Z=1"], "only-on"), (["10 SOUND Q+1,R+1"], "only-device-operand"),
     (["10 Z=INT(Q)"], "only-convertible-argument"), (["10 Z=INSTR(1,H$,\"A\")"], "only-convertible-argument"),
     (["10 HPRINT(1,2),H$"], "only-device-operand"), (["10 PRINT @Q,\"X\""], "only-print-at"),
-    (["10 Z=Q+R*S"], "expression"), (["7 DIM C(3)", "10 Z=C(1)"], "dimmed-array-read"),
+    (["10 Z=Q+R*S"], "expression"), (["7 DIM A(5)", "10 A(1)=A+1:PRINT A"], "scalar-and-array-of-one-name"),
+    (["10 N$(2)=N$+\"X\":PRINT N$"], "scalar-and-array-of-one-name"), (["7 DIM T$(2),U(2)", "10 Z$=T$+\"A\":Z=U*2"], "scalar-and-array-of-one-name"), (["7 DIM C(3)", "10 Z=C(1)"], "dimmed-array-read"),
     (["7 DIM C$(3)", "10 Z$=C$(1)"], "dimmed-array-read"), (["7 DIM C(1,1)", "10 Z=C(1,1)"], "dimmed-array-read"),
     (["10 Z=VARPTR(Q)"], "only-varptr"), (["10 PLAY H$"], "only-device-operand"), (["10 WIDTH Q+32"], "only-device-operand"),
 ]
